@@ -34,7 +34,7 @@ def run(cx):
 
     # ---- R1 ---------------------------------------------------------------------------------------
     f = m.one(r"^%s::update_data$" % TASK)
-    upd = [c for c in f.calls() if c.q.endswith("Task::update_data_if_exists")]
+    upd = _ancestor_updates(m, pa, f)
     ism = [c for c in f.calls() if c.q.endswith("Regex::is_match")]
     if len(upd) != 1 or len(ism) != 1:
         raise Anchor("update_data: expected one ancestor update and one is_match")
@@ -42,15 +42,8 @@ def run(cx):
     neg = any(g.root == ("call", ism[0].q, ism[0].b, ()) and g.truth is False for g in gs)
     # the key tested is the key written
     key_tested = pa.root(f, ism[0].args[1])
-    clos = pa.root(f, upd[0].args[1])
-    same_key = False
-    if clos[0] == "closure" and clos[1] in m.fns:
-        site = m.closure_sites().get(clos[1])
-        if site:
-            ops = site[3]
-            roots = [pa.root(f, o) for o in ops if o[0] != "k"]
-            kt = _strip(f, pa, key_tested)
-            same_key = any(_strip(f, pa, r) == kt for r in roots)
+    kt = _strip(f, pa, key_tested)
+    same_key = any(r == kt for r in upd[0].key_roots)
     cx.ob("C07.R1", "ancestors:non-private-only", neg and same_key, "update_data writes into an ancestor only for a name the private-key pattern does NOT match (and the name tested is the name written)", upd[0].loc)
     # the pattern literal: must accept every string starting with `__`
     rx = pv.root(f, [c for c in f.calls() if c.q.endswith("Regex::new")][0].args[0])
@@ -191,6 +184,65 @@ def _feeds(g, pv, c, ins):
     return False
 
 
+
+class _Upd:
+    """the hand-up of one value into an ancestor, in either spelling: `t.update_data_if_exists(|v| if v.contains_key(name) {
+    v.set(name, value); true } else { false })` or the same body written in place on `t.data.write()`"""
+    def __init__(self, form, call, key_roots, holder_ok, extra_allowed):
+        self.form, self.call, self.b, self.loc = form, call, call.b, call.loc
+        self.key_roots, self.holder_ok, self.extra_allowed = key_roots, holder_ok, extra_allowed
+
+
+def _ancestor_updates(m, pa, f):
+    out = []
+    for c in f.calls():
+        if c.q.endswith("Task::update_data_if_exists"):
+            clos = pa.root(f, c.args[1])
+            key_roots, okc = [], False
+            if clos[0] == "closure" and clos[1] in m.fns:
+                site = m.closure_sites().get(clos[1])
+                if site:
+                    key_roots = [_strip(f, pa, pa.root(f, o)) for o in site[3] if o[0] != "k"]
+                g = m.fns[clos[1]]
+                ck = [x for x in g.calls() if re.search(r"(Vars|Map::<.*>)::contains_key$", x.q)]
+                st = [x for x in g.calls() if x.q.endswith("Vars::set") or re.search(r"Vars::set::<", x.q)]
+                if len(ck) == 1 and len(st) == 1:
+                    gs = guards_of(m, g, st[0].b, mode="alias")
+                    okc = any(x.root == ("call", ck[0].q, ck[0].b, ()) and x.truth is True for x in gs) and len([x for x in gs if not x.neutral]) == 1
+                    okc = okc and pa.root(g, ck[0].args[1])[:4] == pa.root(g, st[0].args[1])[:4]
+            out.append(_Upd("helper", c, key_roots, okc, []))
+    if out:
+        return out
+    # in place: Vars::set on the write guard of another task's `data`
+    for c in f.calls():
+        if not (c.q.endswith("Vars::set") or re.search(r"Vars::set::<", c.q)):
+            continue
+        r = pa.root(f, c.args[0])
+        lock = None
+        for _ in range(6):
+            if r[0] == "call" and re.search(r"RwLock::<.*>::write$|RwLock::<T>::write$", r[1]):
+                lock = r
+                break
+            if r[0] == "call" and re.search(r"(unwrap|expect|DerefMut>::deref_mut|Deref>::deref)$", r[1]):
+                r = pa.root(f, Call(f, r[2]).args[0])
+                continue
+            break
+        if lock is None:
+            continue
+        owner = pa.root(f, Call(f, lock[2]).args[0])
+        fields = owner[3] if owner[0] in ("param", "call", "local") else ()
+        if "data" not in fields or owner[:2] == ("param", 1):
+            continue
+        ck = [x for x in f.calls() if re.search(r"(Vars|Map::<.*>)::contains_key$", x.q)]
+        okc = False
+        for x in ck:
+            held = any(gd.root == ("call", x.q, x.b, ()) and gd.truth is True for gd in guards_of(m, f, c.b, mode="alias"))
+            if held and _strip(f, pa, pa.root(f, x.args[1])) == _strip(f, pa, pa.root(f, c.args[1])):
+                okc = True
+        out.append(_Upd("in-place", c, [_strip(f, pa, pa.root(f, c.args[1]))], okc, [r"contains_key=True$"]))
+    return out
+
+
 def _strip(f, pa, r):
     n = 0
     while r[0] == "call" and n < 5:
@@ -305,7 +357,7 @@ def r6(cx):
     pa = Prov(m, "alias")
     f = m.one(r"^%s::update_data$" % TASK)
     loops = natural_loops(f)
-    upd = [c for c in f.calls() if c.q.endswith("Task::update_data_if_exists")]
+    upd = _ancestor_updates(m, pa, f)
     push = [c for c in f.calls() if re.search(r"Vec::<.*>::push$", c.q) and "process::task::Task" in c.full]
     # the walk may also be spelled `std::iter::successors(self.parent(), |t| t.parent()).collect()`
     succ = [c for c in f.calls() if re.search(r"^std::iter::successors(::<.*>)?$|iter::successors(::<.*>)?$", c.q)]
@@ -373,22 +425,14 @@ def r6(cx):
     from vlib.model import conditions_of
     from rules.c01 import gdesc
     conds_ = sorted({gdesc(m, g) for g in conditions_of(m, f, upd[0].b, mode="alias") if not g.neutral})
-    extra_ = [d for d in conds_ if not re.search(r"Regex::is_match=False$|^match\(.*Iterator.*next\)=(Some|None)$|^match\(.*branch.*\)=Continue$|is_empty=False$|^match\(Task::parent\)=|^match\(parent\)=", d)]
+    extra_ = [d for d in conds_ if not re.search(r"Regex::is_match=False$|^match\(.*Iterator.*next\)=(Some|None)$|^match\(.*branch.*\)=Continue$|is_empty=False$|^match\(Task::parent\)=|^match\(parent\)=", d)
+              and not any(re.search(p_, d) for p_ in upd[0].extra_allowed)]
     cx.ob("C07.R6", "update_data:every-value", not extra_,
           "update_data offers every written value to the enclosing scopes (conditions on the hand-up: %s)%s" % (conds_, "" if not extra_ else " - it also depends on %s: such values never reach the scopes that hold the name" % extra_), upd[0].loc)
     cx.ob("C07.R6", "update_data:all-holders", ok,
           "update_data offers the value to every collected ancestor: plain iteration, no exit before the end (a holder left out keeps a stale copy that Task::find - nearest first - or Task::vars - outermost first - reads back) (%s)" % why, upd[0].loc)
     # (c) the holder test: writes iff contains_key(name), the same name
-    clos = pa.root(f, upd[0].args[1])
-    okc = False
-    if clos[0] == "closure" and clos[1] in m.fns:
-        g = m.fns[clos[1]]
-        ck = [c for c in g.calls() if re.search(r"(Vars|Map::<.*>)::contains_key$", c.q)]
-        st = [c for c in g.calls() if c.q.endswith("Vars::set") or re.search(r"Vars::set::<", c.q)]
-        if len(ck) == 1 and len(st) == 1:
-            gs = guards_of(m, g, st[0].b, mode="alias")
-            okc = any(x.root == ("call", ck[0].q, ck[0].b, ()) and x.truth is True for x in gs) and len([x for x in gs if not x.neutral]) == 1
-            okc = okc and pa.root(g, ck[0].args[1])[:4] == pa.root(g, st[0].args[1])[:4]
+    okc = upd[0].holder_ok
     cx.ob("C07.R6", "update_data:holder-test", okc, "an ancestor is written exactly when it already holds the name (contains_key), with that same name", upd[0].loc)
     # (d) own data always set, with the whole vars
     sd = [c for c in f.calls() if c.q.endswith("Task::set_data")]
